@@ -172,6 +172,30 @@ fn gen_tail(r: &mut Rng) -> Vec<u8> {
     }
 }
 
+/// A quoted string that needs no escape at all: `"` + name + `"` for names without `"` and `\\`.
+/// git never prints it (quote_c_style leaves such names alone) but reads it (unquote_c_style copies bytes
+/// up to the first `"` or `\\`), and config / attribute / patch files written by hand contain it.
+/// With a tail that holds another `"` the FIRST closing quote ends the name.
+fn gen_plain_quoted(r: &mut Rng) -> (Vec<u8>, Vec<u8>, Vec<u8>) {
+    let n = r.usize(7);
+    let name: Vec<u8> = match r.below(3) {
+        0 => r.over(b"ab c.", n),
+        1 => r.over(b"a \xc3\xa9\t/-", n),
+        _ => (0..n).map(|_| loop { let b = r.byte(); if b != b'"' && b != b'\\' { break b } }).collect(),
+    };
+    let mut quoted = vec![b'"'];
+    quoted.extend_from_slice(&name);
+    quoted.push(b'"');
+    let tail = match r.below(5) {
+        0 => b" \"c d\"".to_vec(),
+        1 => b"\"".to_vec(),
+        2 => r.over(b"\" ab", 6),
+        3 => { let mut t = b" ".to_vec(); t.extend(r.over(b"\"xy ", 4)); t.push(b'"'); t }
+        _ => gen_tail(r),
+    };
+    (name, quoted, tail)
+}
+
 /// adversarial inputs for `undo`: mostly quoted, truncated escapes, bad octal, no closing quote
 fn gen_raw(r: &mut Rng) -> Vec<u8> {
     let mut v = Vec::new();
@@ -290,6 +314,13 @@ fn main() {
         do_undo(&mut rep, s, "edge");
     }
 
+    // quoted without any escape, followed by text that holds another quote
+    for (name, tail) in [(&b"a b"[..], &b" \"c d\""[..]), (b"a b", b"\""), (b"", b"\"\""), (b"x", b" \"y\" \"z\""), (b"a b", b""), (b"a", b" b\"")] {
+        let mut q = vec![b'"'];
+        q.extend_from_slice(name);
+        q.push(b'"');
+        check_inverse(&mut rep, name, &q, tail, "plain-quoted");
+    }
     // ---- random rounds ----------------------------------------------------------------------
     let total = args.budget(5_000, 200_000) as usize;
     let batch = 2_500usize;
@@ -312,6 +343,10 @@ fn main() {
             let q = ref_quote(full, &name);
             let tail = gen_tail(&mut r);
             check_inverse(&mut rep, &name, &q, &tail, "ref");
+        }
+        for _ in 0..want / 5 {
+            let (name, q, tail) = gen_plain_quoted(&mut r);
+            check_inverse(&mut rep, &name, &q, &tail, "plain-quoted");
         }
         // adversarial inputs
         for _ in 0..want {
